@@ -1,3 +1,4 @@
+import FrappyModel.Small.Scan
 /-
 Model of the control hand-over mixins `frappy/mixins.py:26-116` (`HasControlledBy`, `HasOutputModule`).
 
@@ -75,9 +76,14 @@ def step (n : Nat) (s : St) : Op → St
   | .selfControlled => selfControlled n s
   | .updateTarget k => if k < n then s else { s with ok := false }
 
-def run (n : Nat) (s : St) : List Op → List St
-  | [] => []
-  | op :: ops => let s' := step n { s with evs := [], ok := true } op; s' :: run n s' ops
+/-- one operation of a history: the update stream and the outcome flag are per operation -/
+def step1 (n : Nat) (s : St) (op : Op) : St := step n { s with evs := [], ok := true } op
+
+/-- states after each operation (the quiescent points) -/
+def run (n : Nat) (s : St) (ops : List Op) : List St := Frappy.Scan.scan (step1 n) s ops
+
+/-- state after a whole history -/
+def exec (n : Nat) (s : St) (ops : List Op) : St := ops.foldl (step1 n) s
 
 def init : St := { cb := none, act := fun _ => false }
 
